@@ -188,5 +188,5 @@ def replay_known(entry) -> bool:
 
 NOT_READY = False
 LEVEL_TEXT = "Proof. On the Node instance of the pointer-store model (pre-assign hooks run the user hook, then the duplicate-name check) and a List-Char model of path_name / depth / sep / find_full_path (str.split, lstrip, rstrip, join re-implemented): C03.sib_unique_step / sib_unique_run - in every state reachable through the structural API no two children of one parent share a name; dup_refused_unchanged - a duplicate attachment is refused and the store is unchanged; pathNames_injective - route names identify a node inside its tree; split_join - split(sep) inverts join(sep) for a one-character separator occurring in no piece; path_name_eq, path_name_injective - the path name is sep + sep.join(route names) and path names are pairwise distinct in a tree; depth_eq_length; sep_is_root_sep - every node reports the separator stored on its root, a node and its parent agree, after v.sep = x exactly v's tree reports x, a detached node reports its own field; find_full_path_path_name (+ find_full_path_variants: leading separator omitted / trailing separator added) - looking a node's path name up from any node of its tree returns that very node. Tied to /repo by differential testing of Node histories (names a,b,ab,ba,aa,'a b','a.b'; separators / . \\ | and ::) comparing path_name/depth/sep of every node after every call and all pairwise look-ups on the final store."
-LEVEL_NOTE = "String theorems assume a single-character separator that occurs in no name and non-empty names (what Node enforces); multi-character separators ('::') are covered by the tie only. The constructors (list/dict/dataframe/nested) are covered through C05/C13's models, not here. Renaming via node.name= is excluded by the statement."
+LEVEL_NOTE = "String theorems assume a single-character separator that occurs in no name and non-empty names (what Node enforces); multi-character separators ('::') are covered by the tie only. The constructors (list/dict/dataframe/nested) are covered through C05/C13's models, not here. Renaming via node.name= is excluded by the statement." + " Known finding K7: multi-character separators are stripped as a character set (sep '__', names 'a' and 'a_'); names never start or end with a character of the separator in the tie, so it is replayed separately on every run."
 TECHNIQUE = 'Lean 4 invariant proof (SibUnique) + injectivity/round-trip theorems on List Char + correspondence check + model-free path oracle'
